@@ -193,6 +193,10 @@ pub struct EvidenceMeta<'a> {
 }
 
 pub fn write_evidence(meta: &EvidenceMeta<'_>, agg: &Aggregate, wall: f64, violations: u64, known: u64) {
+    if std::env::var_os("VERIF_NO_EVIDENCE").is_some() {
+        // sensitivity runs against a deliberately broken tree must not overwrite the evidence files
+        return;
+    }
     let runs_per_hour = if wall > 0.0 { (agg.evaluations as f64 / wall * 3600.0) as u64 } else { 0 };
     let mut samples = agg.samples.clone();
     if samples.is_empty() {
